@@ -138,15 +138,11 @@ func (p *Parser) Parse(buf []byte, args ...any) (any, error) {
 	p.mi = 0
 	var err error
 	// Skip BOM if present.
-	if 3 < len(buf) && buf[0] == 0xEF {
-		if buf[1] == 0xBB && buf[2] == 0xBF {
-			err = p.parseBuffer(buf[3:], true)
-		} else {
-			return nil, fmt.Errorf("expected BOM at 1:3")
-		}
-	} else {
-		err = p.parseBuffer(buf, true)
+	var skip int
+	if skip, err = bomSkip(buf); err != nil {
+		return nil, err
 	}
+	err = p.parseBuffer(buf[skip:], true)
 	p.stack = p.stack[:cap(p.stack)]
 	for i := len(p.stack) - 1; 0 <= i; i-- {
 		p.stack[i] = nil
@@ -221,8 +217,8 @@ func (p *Parser) ParseReader(r io.Reader, args ...any) (data any, err error) {
 	}
 	var skip int
 	// Skip BOM if present.
-	if 3 < len(buf) && buf[0] == 0xEF && buf[1] == 0xBB && buf[2] == 0xBF {
-		skip = 3
+	if skip, err = bomSkip(buf); err != nil {
+		return
 	}
 	for {
 		if 0 < skip {
@@ -256,6 +252,21 @@ func (p *Parser) ParseReader(r io.Reader, args ...any) (data any, err error) {
 	data = p.result
 
 	return
+}
+
+// bomSkip returns the number of bytes to skip for a byte order mark at the
+// start of buf. A first byte of 0xEF that starts neither a BOM nor some other
+// UTF-8 character is an error.
+func bomSkip(buf []byte) (int, error) {
+	if 3 < len(buf) && buf[0] == 0xEF {
+		if buf[1] == 0xBB && buf[2] == 0xBF {
+			return 3, nil
+		}
+		if buf[1]&0xC0 != 0x80 || buf[2]&0xC0 != 0x80 {
+			return 0, fmt.Errorf("expected BOM at 1:3")
+		}
+	}
+	return 0, nil
 }
 
 func (p *Parser) parseBuffer(buf []byte, last bool) (err error) {
